@@ -150,6 +150,30 @@ def Revoked.justiceValid (r : Revoked) (k : OutKind) (cltv : Nat) (payHash : Ite
   run (r.ctx k) (r.script k cltv payHash)
     (r.witness k (.sig (r.signDesc k).signer 1 true))
 
+/-! ### simple-taproot channels
+    The commitment outputs are spent through a script path (NUMS internal key),
+    HTLC outputs and the second-level output through the key path, whose internal
+    key is the revocation key. -/
+
+def Revoked.tapScript (r : Revoked) (k : OutKind) : Option (List Op) :=
+  match k with
+  | .toLocal => some (tapRevokeLeaf r.toLocalKey r.revocationKey)
+  | .toRemote => some (tapDelayLeaf r.ct.taprootFinal r.toRemoteKey 1)
+  | _ => none
+
+/-- witness below the leaf script and control block: one Schnorr signature (SIGHASH_DEFAULT) -/
+def Revoked.tapWitness (r : Revoked) (k : OutKind) : List Item :=
+  [.sig (r.signDesc k).signer 0 true]
+
+def Revoked.tapCtx (r : Revoked) (k : OutKind) : Ctx :=
+  { version := 2, sequence := r.sequence k, lockTime := 0, tapscript := true }
+
+/-- script path: the leaf accepts the witness; key path: the signer is the internal key. -/
+def Revoked.tapJusticeValid (r : Revoked) (k : OutKind) : Bool :=
+  match r.tapScript k with
+  | some sc => run (r.tapCtx k) sc (r.tapWitness k)
+  | none => decide ((r.signDesc k).signer = r.revocationKey)
+
 /-- The one configuration in which the breach arbitrator's transaction shape
     (locktime 0) cannot satisfy the victim's own to-remote script. -/
 def Revoked.leaseToRemote (r : Revoked) (k : OutKind) : Bool :=
